@@ -35,6 +35,30 @@ def std_arities(repo):
 
 def generate(repo):
     ar = std_arities(repo)
+    CP = 'atsim/potentials/config/_config_parser.py'
+    # species keys (model/ItemLabel.v: pair_key, fs_key)
+    assert_body(repo, CP, 'ConfigParser._pair_species_func', """
+        tokens = k.split("-")
+        if len(tokens) != 2:
+          raise ConfigParserException("Pair potential keys should be of the form 'SPECIES_A-SPECIES_B'. Invalid key found: '{}'".format(k))
+        species_a, species_b = tokens
+        species_a = species_a.strip()
+        species_b = species_b.strip()
+        if not species_a or not species_b:
+          raise ConfigParserException("Pair potential keys should be of the form 'SPECIES_A-SPECIES_B'. Species missing in key: '{}'".format(k))
+        return  SpeciesTuple(species_a, species_b)
+    """)
+    assert_body(repo, CP, 'ConfigParser._parse_eam_fs_density_line.species_func', """
+        tokens = k.split("->")
+        if len(tokens) != 2:
+          raise ConfigParserException("invalid key '{}'".format(k))
+        from_species, to_species = tokens
+        from_species = from_species.strip()
+        to_species = to_species.strip()
+        if not from_species or not to_species:
+          raise ConfigParserException("species missing in key '{}'".format(k))
+        return  EAMFSDensitySpeciesTuple(from_species, to_species)
+    """)
     C = 'atsim/potentials/config/_potential_form.py'
     assert_body(repo, C, '_Check_Call.args_valid', 'return self.signature.is_varargs or len(args) == self.required_arg_len()')
     assert_body(repo, C, '_Check_Call.required_arg_len', '''
